@@ -562,7 +562,7 @@ def run_case(case):
             return CaseResult(False, detail='Fitter(...) raised %s: %s on an in-domain package (%s; smallest apertures %r AU, '
                                             'theta*dmin = %r AU)' % (type(e).__name__, e, describe(case),
                                                                       [a[0] for a in case['aps']],
-                                                                      [t * case['dmin'] * 1000. for t in case['thetas']]),
+                                                                      [t * (case['dmin'] * 1000.) for t in case['thetas']]),
                               violates=True, branches=branches)
         if on_knot:
             branches.add('theta_dmin_on_knot')
